@@ -116,7 +116,31 @@ fn worker(prop: &str, tier: &str, seed: u64, start: u64, stride: u64, count: u64
     let mut harness: Vec<Value> = Vec::new();
     let mut samples: Vec<Value> = Vec::new();
     let mut cut_short = false;
+    // watchdog: a single run that makes no progress for a long wall-clock time (a dependency
+    // stuck after a failed thread spawn under memory pressure, say) must end the check as a
+    // harness error instead of hanging it
+    let progress = std::sync::Arc::new(std::sync::atomic::AtomicU64::new(0));
+    {
+        let progress = progress.clone();
+        let limit_s = std::env::var("VERIF_RUN_STUCK_S").ok().and_then(|v| v.parse().ok()).unwrap_or(900u64);
+        let prop = prop.to_string();
+        std::thread::spawn(move || {
+            let mut last = (u64::MAX, std::time::Instant::now());
+            loop {
+                std::thread::sleep(std::time::Duration::from_secs(5));
+                let cur = progress.load(std::sync::atomic::Ordering::Relaxed);
+                if cur != last.0 {
+                    last = (cur, std::time::Instant::now());
+                } else if last.1.elapsed().as_secs() >= limit_s {
+                    eprintln!("watchdog: {} run index {} made no progress for {} s", prop, cur, limit_s);
+                    let _ = std::fs::remove_dir_all(world::scratch_root());
+                    std::process::exit(3);
+                }
+            }
+        });
+    }
     for k in 0..count {
+        progress.store(start + k * stride, std::sync::atomic::Ordering::Relaxed);
         if t0.elapsed().as_secs() >= deadline_s {
             cut_short = true;
             break;
